@@ -2,7 +2,7 @@
    threading the MODEL state through the whole history and diffing the complete projection after
    every step; evaluates the extracted property predicates holds_C01 / holds_C02 / holds_C02_step
    / holds_C03 / holds_C03_step on the IMPLEMENTATION's observations and classifies failures by
-   the extracted KF predicates.  One replay, three entries (each reports its own predicates). *)
+   kf=none (C02-F1, the only class found, is repaired: fixes/C02-F1).  One replay, three entries (each reports its own predicates). *)
 open Conv
 open Vault
 
@@ -117,8 +117,8 @@ let run_for (which : string) (path : string) =
         mm ("supply[" ^ zs d ^ "]") (zs (m.sup d)) (zs iv)) !denoms;
     let sortv l = L.sort (fun (a : vault) b -> Z.compare (zz_of_z a.v_id) (zz_of_z b.v_id)) l in
     let sortsv l = L.sort (fun (a : svault) b -> Z.compare (zz_of_z a.sv_id) (zz_of_z b.sv_id)) l in
-    mm "vaults" (S.concat " " (L.map show_vault (sortv m.vaults))) (S.concat " " (L.map show_vault (sortv o.o_vaults)));
-    mm "stable_vaults" (S.concat " " (L.map show_svault (sortsv m.svaults))) (S.concat " " (L.map show_svault (sortsv o.o_svaults)));
+    mm "vaults" (S.concat ";" (L.map show_vault (sortv m.vaults))) (S.concat ";" (L.map show_vault (sortv o.o_vaults)));
+    mm "stable_vaults" (S.concat ";" (L.map show_svault (sortsv m.svaults))) (S.concat ";" (L.map show_svault (sortsv o.o_svaults)));
     L.iter (fun (e : epair) ->
         mm (Printf.sprintf "product[%s,%s]" (zs e.ep_app) (zs e.ep_id))
           (show_prod (m.prods e.ep_app e.ep_id)) (show_prod (Hashtbl.find_opt o.o_prods (key2 e.ep_app e.ep_id)));
@@ -138,12 +138,7 @@ let run_for (which : string) (path : string) =
     if want "C01" && not (holds_C01 c !denoms impl) then begin
       L.iter (fun d ->
           if not (c01_custody c impl d) then begin
-            (* C02-F1 / C01-F3: a zero-fee stable-mint create whose debt denom is d happened earlier *)
-            let kfops = L.filter (fun o -> kf_C02_1 c o && (match o with
-                | StableCreate (_, _, e, _) -> (match get_ep c e with Some ep -> BinInt.Z.eqb ep.ep_out d | None -> false)
-                | _ -> false)) !hist_ops in
-            let kf = if kf_C01_1 c kfops then "kf_C01_1" else "none" in
-            predfail ~case:!case ~step:!step ~pred:"c01_custody" ~kf
+            predfail ~case:!case ~step:!step ~pred:"c01_custody" ~kf:"none"
               ~detail:(Printf.sprintf "denom=%s_custody=%s_recorded=%s_unsolicited=%s" (zs d) (zs (impl.bal coq_VAULT d)) (zs (coll_sum c impl d)) (zs (impl.unsol d)))
           end) !denoms;
       if not (c01_count impl) then
@@ -167,8 +162,7 @@ let run_for (which : string) (path : string) =
      | Some (o, kind, res), Some pre ->
        let ok = (res = "ok") in
        if want "C02" && ok && is_msg o && not (holds_C02_step c pre o impl) then begin
-         let kf = if kf_C02_1 c o then "kf_C02_1" else "none" in
-         predfail ~case:!case ~step:!step ~pred:("c02_step_" ^ kind) ~kf ~detail:"mint_delivery/burn/fee_law"
+         predfail ~case:!case ~step:!step ~pred:("c02_step_" ^ kind) ~kf:"none" ~detail:"mint_delivery/burn/fee_law"
        end;
        if want "C03" && is_msg o && not (holds_C03_step c pre o ok impl) then
          predfail ~case:!case ~step:!step ~pred:("c03_step_" ^ kind) ~kf:"none" ~detail:("result=" ^ res)
